@@ -13,7 +13,10 @@ def run(root, tag, rounds=2):
         try:
             sc.compile(['/usr/bin/gcc', '-c', 'a.c', '-o', 'out.o'], w); A = open(f'{w}/out.o', 'rb').read()
             sc.compile(['/usr/bin/gcc', '-c', 'b.c', '-o', 'out.o'], w); B = open(f'{w}/out.o', 'rb').read()
-            os.link(f'{w}/out.o', f'{w}/alias.o')
+            if r % 2 == 1:
+                # the output path is a symbolic link to the file with the previous bytes: the hit must replace the link, the target keeps the old bytes
+                os.rename(f'{w}/out.o', f'{w}/real.o'); os.symlink('real.o', f'{w}/out.o')
+            os.link(f'{w}/real.o' if r % 2 == 1 else f'{w}/out.o', f'{w}/alias.o')
             fd = os.open(f'{w}/out.o', os.O_RDONLY); ino0 = os.fstat(fd).st_ino; first = os.read(fd, 100)
             before = counts(sc.stats())
             sc.compile(['/usr/bin/gcc', '-c', 'a.c', '-o', 'out.o'], w)      # cache hit: extract over the path
@@ -26,8 +29,8 @@ def run(root, tag, rounds=2):
             os.close(fd)
             hit = after['cache_hits'] - before['cache_hits'] == 1
             now = open(f'{w}/out.o', 'rb').read(); ino1 = os.stat(f'{w}/out.o').st_ino
-            left = [f for f in os.listdir(w) if f not in ('a.c', 'b.c', 'out.o', 'alias.o')]
-            line = f'hit={hit} reader_saw_old_complete={first + rest == B} path_has_new={now == A} new_inode={ino0 != ino1} hard_link_keeps_old={open(f"{w}/alias.o", "rb").read() == B} leftovers={left}'
+            left = [f for f in os.listdir(w) if f not in ('a.c', 'b.c', 'out.o', 'alias.o', 'real.o')]
+            line = f'output_was_symlink={r % 2 == 1} hit={hit} reader_saw_old_complete={first + rest == B} path_has_new={now == A} new_inode={ino0 != ino1} hard_link_keeps_old={open(f"{w}/alias.o", "rb").read() == B} leftovers={left}'
             samples.append(line); n += 1
             if not hit: fails.append({'kind': 'expected_hit_missing', 'detail': line, 'ops': [line]})
             if first + rest != B: fails.append({'kind': 'open_reader_saw_changed_bytes', 'detail': line, 'ops': [line]})
